@@ -50,7 +50,9 @@ pub enum Fault {
     FnPanicAfterTrainBpe { j: usize },
     /// two loaders in one process (e.g. training and validation): pipe A is the observed one, a
     /// second threaded pipe B is created before (order 1) or after (order 0, 2) it and dropped
-    /// (order 0, 1) or kept alive (order 2) before A's processing function panics on the first item >= j
+    /// (order 0, 1) or kept alive (order 2) before A's processing function panics on the first item >= j;
+    /// order 3, 4: B is created first, then foreign code (a logging / error-reporting library) installs
+    /// its own panic hook (3) or takes the current one away (4), B is dropped (4) or kept (3), then A is created
     FnPanicTwoPipes { j: usize, order: u8 },
     /// the processing function hands item j to a helper thread, the helper panics and the
     /// worker re-raises the panic with resume_unwind (what rayon's par_iter or a scoped join does):
@@ -191,7 +193,7 @@ pub fn grid() -> Vec<(Shape, u8, Option<usize>, Fault)> {
     }
     // ---- a second pipe in the same process, created and dropped around the observed one
     for j in [0usize, 4] {
-        for order in 0..3u8 {
+        for order in 0..5u8 {
             for w in [1u8, 2, 4] {
                 g.push((Shape::Pipe, w, None, Fault::FnPanicTwoPipes { j, order }));
                 g.push((Shape::PipeBuffered(1), w, Some(40), Fault::FnPanicTwoPipes { j, order }));
@@ -464,9 +466,21 @@ impl Scenario for C09 {
                 Box::new((0..n).pipe(g, 2))
             };
             let mut early_other = match sc.fault {
-                Fault::FnPanicTwoPipes { order: 1, .. } => Some(other(6)),
+                Fault::FnPanicTwoPipes { order: 1 | 3 | 4, .. } => Some(other(6)),
                 _ => None,
             };
+            match sc.fault {
+                Fault::FnPanicTwoPipes { order: 3, .. } => {
+                    verif_rt::shim::std::panic::set_hook(Box::new(|_| {}));
+                    rt::log(Kind::Fault, 10, 3);
+                }
+                Fault::FnPanicTwoPipes { order: 4, .. } => {
+                    drop(verif_rt::shim::std::panic::take_hook());
+                    drop(early_other.take());
+                    rt::log(Kind::Fault, 10, 4);
+                }
+                _ => {}
+            }
             let src_panic_at = match sc.fault {
                 Fault::SrcPanic { j, .. } => Some(j),
                 _ => None,
@@ -610,12 +624,12 @@ impl Scenario for C09 {
                     rt::wait_threads_exit();
                 }
                 Fault::FnPanicTwoPipes { order, .. } => {
-                    let mut late_other = if order != 1 { Some(other(6)) } else { None };
+                    let mut late_other = if order == 0 || order == 2 { Some(other(6)) } else { None };
                     for o in [&mut early_other, &mut late_other].into_iter().flatten() {
                         let _ = o.next();
                         let _ = o.next();
                     }
-                    if order != 2 {
+                    if order != 2 && order != 3 {
                         // the second loader goes away (e.g. validation finished) before the failure
                         drop(early_other.take());
                         drop(late_other.take());
@@ -830,8 +844,11 @@ impl C09 {
                 if matches!(self.fault, Fault::HelperThreadPanic { .. }) {
                     stats.fault("panic_raised_on_a_helper_thread_and_re-raised_in_the_worker");
                 }
-                if matches!(self.fault, Fault::FnPanicTwoPipes { .. }) {
+                if let Fault::FnPanicTwoPipes { order, .. } = self.fault {
                     stats.fault("second_pipe_in_the_same_process");
+                    if order >= 3 {
+                        stats.fault("foreign_panic_hook_set_or_taken_between_two_pipes");
+                    }
                 }
                 if matches!(self.fault, Fault::FnPanicAfterTrainBpe { .. }) {
                     stats.fault("other_component_replaced_the_panic_hook");
